@@ -16,6 +16,8 @@ import DateutilVerif.Proofs.RRuleStrSet
 import DateutilVerif.Proofs.RRuleStrSpell
 import DateutilVerif.Proofs.RRuleStrOpts
 import DateutilVerif.Proofs.RRuleStrRule
+import DateutilVerif.Proofs.RRuleStrFold
+import DateutilVerif.Proofs.RRuleStrTzid
 
 namespace C13
 open RRuleStr
@@ -361,5 +363,159 @@ example : ∃ rr ex, setOf {} sampleLines false false false =
           (some (lit "19970902T090000", [], {})) false false) :=
   ⟨_, _, rfl⟩
 example : ∃ r, parseRfc (lit "FREQ=DAILY;COUNT=2") { forceset := true } = .ok r := ⟨_, rfl⟩
+
+/-! ## 9. the source translation: prefix of `_parse_rfc`, unfold loop, parameter loop (`Generated/RRuleStrKernels.lean`)
+
+`harness/translate_str.py` re-translates, on every run, every statement of `_rrulestr._parse_rfc` up to and including
+`if unfold: … else: lines = s.split()` (`Gen.rrsPrefix`, with the `while` loop as `Gen.rrsPrefixLoop`), every statement of
+`_parse_date_value` up to and including `for parm in parms:` (`Gen.rrsDateParms`) and the statement that attaches the
+looked-up zone to a parsed date (`Gen.rrsAttach`).  The obligations below tie them to the hand model, so a behavioural
+edit of those statements breaks a named obligation (or the translation) on the next run. -/
+
+/-- the translated `while i < len(lines):` loop, given `len(lines) + 1` units of fuel, never runs out of fuel and leaves
+    exactly `ICal.unfold lines` — for EVERY list of lines -/
+theorem gen_unfold_loop_eq_model (lines : List (List Char)) :
+    ∃ n, Gen.rrsPrefixLoop (lines.length + 1) 0 lines = .ok (n, ICal.unfold lines) := loop_eq_unfold lines
+
+/-- the translated prefix of `_parse_rfc` = the model's: flags, name table of the text as written, upper-cased text,
+    ValueError for a blank text, `lines` = `linesOf` — for every text and all flags -/
+theorem gen_prefix_eq_model (s0 : List Char) (u f c : Bool) :
+    Gen.rrsPrefix s0 u f c =
+      if (ICal.strip (upper s0)).isEmpty then .error .ValueError
+      else .ok (f || c, u || c, tzidTable s0 (u || c), upper s0, linesOf (upper s0) (u || c)) :=
+  RRuleStr.gen_prefix_eq_model s0 u f c
+
+/-- the translated parameter loop of `_parse_date_value` = the model's `dateParmsOk` / `resolveTzid`, for every parameter
+    list, every name table and `tzids` None / callable / mapping (`lk` = which function does the lookup) -/
+theorem gen_dateParms_eq_model (parms : List (List Char)) (t : StrPy.Dict) (k : StrPy.TzidsKind) (lk : StrPy.Lookup)
+    (hk : lookupOf k = some lk) :
+    Gen.rrsDateParms parms t k =
+      match dateParmsOk parms with
+      | .error _ => .error .ValueError
+      | .ok _ => .ok ((resolveTzid t parms).map (StrPy.Zone.looked lk), !(restParms parms).isEmpty) :=
+  RRuleStr.gen_dateParms_eq_model parms t k lk hk
+
+/-- a `tzids` argument that is neither None, callable nor a mapping is a ValueError at the first TZID parameter found in the table -/
+example : Gen.rrsDateParms [lit "TZID=X"] [(lit "X", lit "x")] .other = .error .ValueError := by decide
+example : Gen.rrsDateParms [lit "VALUE=DATE-TIME", lit "TZID=X"] [(lit "X", lit "x")] .callable =
+    .ok (some (.looked .call (lit "x")), true) := by decide
+
+/-! ## 10. folding: unfold ∘ fold = id -/
+
+/-- **`unfold (fold s) = s`.**  Take any logical lines, cut each into a first piece and ANY number of continuation pieces at
+    ANY positions (`Folded`: pieces may be empty or one character long, so consecutive continuation lines, folds right
+    after `;` `,` `=` `:`, inside `TZID=`, inside a name, and right after a space at the end of the FIRST piece are all
+    covered), write every piece on its own physical line (continuations behind one space), end every physical line with
+    `\n` or `\r\n` chosen line by line: `linesOf text true` — `splitlines()` followed by the unfold loop — gives exactly the
+    logical lines back.  Hypotheses (`Folded.ok`): the first piece has a visible character and does not begin with a space;
+    NO CONTINUATION PIECE ENDS IN WHITESPACE.  That last restriction is the code's, not the proof's: see
+    `fold_after_space_in_continuation_loses_it` (known finding D-C13-fold-after-space). -/
+theorem unfold_fold (fs : List Folded) (hok : ∀ f ∈ fs, f.ok) (ph : List (List Char × Bool))
+    (hph : ph.map (·.1) = (fs.map Folded.physical).flatten)
+    (hnb : ∀ p ∈ ph, ∀ c ∈ p.1, ICal.isLineBreak c = false) :
+    linesOf (ph.map (fun p => p.1 ++ brk p.2)).flatten true = fs.map Folded.logical := by
+  unfold linesOf unfoldLines ICal.splitLines
+  simp only [if_true]
+  rw [splitLines_terminated ph hnb, List.reverse_nil, List.nil_append, hph, unfold_physical fs hok]
+
+/-- the same about the SOURCE translation: on a text whose upper-cased form is such a folded text, with `unfold` or
+    `compatible` set, the translated prefix of `_parse_rfc` ends with `lines` = the (upper-cased) logical lines -/
+theorem unfold_fold_source (s0 : List Char) (fs : List Folded) (hok : ∀ f ∈ fs, f.ok) (ph : List (List Char × Bool))
+    (hph : ph.map (·.1) = (fs.map Folded.physical).flatten)
+    (hnb : ∀ p ∈ ph, ∀ c ∈ p.1, ICal.isLineBreak c = false)
+    (hs : upper s0 = (ph.map (fun p => p.1 ++ brk p.2)).flatten) (hne : (ICal.strip (upper s0)).isEmpty = false)
+    (u f c : Bool) (hu : (u || c) = true) :
+    Gen.rrsPrefix s0 u f c = .ok (f || c, true, tzidTable s0 true, upper s0, fs.map Folded.logical) := by
+  rw [RRuleStr.gen_prefix_eq_model, hne, hu, hs, unfold_fold fs hok ph hph hnb]
+  simp
+
+/-- a DTSTART line folded three times: after `;`, inside `TZID=`, right after the space that ends the first piece … -/
+def foldedSample : Folded := { first := lit "DTSTART ", conts := [lit ";TZ", lit "ID=A", lit "", lit "B:19970902T090000"] }
+
+example : foldedSample.ok := ⟨⟨'D', lit "TSTART", by decide, by decide⟩, by decide⟩
+example : linesOf (lit "DTSTART \n ;TZ\r\n ID=A\n \n B:19970902T090000\nRRULE:FREQ=DAILY\n") true =
+    [lit "DTSTART ;TZID=AB:19970902T090000", lit "RRULE:FREQ=DAILY"] := by decide
+
+/-- **the excluded case is real** (known finding D-C13-fold-after-space): a fold right after a space that ENDS A CONTINUATION
+    piece loses the space — the loop appends the `rstrip()`ped continuation line.  `DTSTART;` / ` TZID=EASTERN ` /
+    ` STANDARD TIME:…` unfolds to `…TZID=EASTERNSTANDARD TIME…`, while the TZID pre-scan (which uses `re.sub`) records
+    `EASTERN STANDARD TIME`: the parameter is not found in the table and the zone is silently dropped. -/
+theorem fold_after_space_in_continuation_loses_it :
+    ICal.unfold [lit "DTSTART;", lit " TZID=EASTERN ", lit " STANDARD TIME:19970902T090000"] =
+      [lit "DTSTART;TZID=EASTERNSTANDARD TIME:19970902T090000"] ∧
+    stripFolds (lit "DTSTART;\n TZID=EASTERN \n STANDARD TIME:19970902T090000") =
+      lit "DTSTART;TZID=EASTERN STANDARD TIME:19970902T090000" ∧
+    tzidOf (lit "DTSTART;\n TZID=Eastern \n Standard Time:19970902T090000") { unfold := true }
+      [lit "TZID=EASTERNSTANDARD TIME"] = none := by decide
+
+/-! ## 11. TZID: the name handed to the lookup, the zone of the start -/
+
+/-- **the TZID found is the parameter value as written, regardless of letter case and parameter order.**
+    The text searched (`s0`, or `re.sub(r'\r?\n ', '', s0)` when unfolding — so the parameter may be folded anywhere, inside
+    `TZID=` too) has the form `pre ++ kw ++ name ++ d :: post`: `kw` is `TZID=` in ANY letter case, `name` is non-empty and
+    free of `:` `;` (ANY letter case), `d` is `:` or `;`, no earlier occurrence of the pattern starts inside `pre`, and every
+    later occurrence of the same name up to letter case is spelled the same way (a later table entry overwrites an earlier
+    one).  The line's (upper-cased) parameters are ANY list `l1 ++ [TZID=NAME] ++ l2` in which no other parameter begins with
+    `TZID=` — the TZID parameter may stand before or after `VALUE=…`.  Then the name handed to the `tzids` lookup is `name`,
+    exactly as written.  (`hafter`: the upper-cased name does not itself contain `TZID=`.) -/
+theorem tzid_found (s0 pre kw name post : List Char) (d : Char) (o : Opts)
+    (htxt : (if o.unfold || o.compatible then stripFolds s0 else s0) = pre ++ (kw ++ name ++ d :: post))
+    (hkw : upper kw = lit "TZID=") (hne : name ≠ []) (hname : ∀ c ∈ name, c ≠ ':' ∧ c ≠ ';') (hd : d = ':' ∨ d = ';')
+    (hpre : NoMatchBefore pre.length (pre ++ (kw ++ name ++ d :: post)))
+    (hlater : ∀ n ∈ findTzids post, upper n = upper name → n = name)
+    (l1 l2 : List (List Char)) (h1 : ∀ q ∈ l1, startsWith q (lit "TZID=") = false)
+    (h2 : ∀ q ∈ l2, startsWith q (lit "TZID=") = false)
+    (hafter : afterLastTzid (lit "TZID=" ++ upper name) = upper name) :
+    tzidOf s0 o (l1 ++ (lit "TZID=" ++ upper name) :: l2) = some name := by
+  unfold tzidOf tzidTable
+  rw [htxt, findTzids_found pre kw name post d hkw hne hname hd hpre,
+    resolveTzid_one _ l1 l2 _ h1 h2 (by simp [startsWith, lit]), hafter]
+  exact tzidLookup_first name _ hlater
+
+/-- … and on the SOURCE translation: with that table, the translated parameter loop ends with the zone
+    `<lookup>(name)` — `tz.gettz(name)`, `tzids(name)` or `tzids.get(name)` — when the other parameters are acceptable -/
+theorem tzid_found_source (s0 pre kw name post : List Char) (d : Char) (o : Opts)
+    (htxt : (if o.unfold || o.compatible then stripFolds s0 else s0) = pre ++ (kw ++ name ++ d :: post))
+    (hkw : upper kw = lit "TZID=") (hne : name ≠ []) (hname : ∀ c ∈ name, c ≠ ':' ∧ c ≠ ';') (hd : d = ':' ∨ d = ';')
+    (hpre : NoMatchBefore pre.length (pre ++ (kw ++ name ++ d :: post)))
+    (hlater : ∀ n ∈ findTzids post, upper n = upper name → n = name)
+    (l1 l2 : List (List Char)) (h1 : ∀ q ∈ l1, startsWith q (lit "TZID=") = false)
+    (h2 : ∀ q ∈ l2, startsWith q (lit "TZID=") = false)
+    (hafter : afterLastTzid (lit "TZID=" ++ upper name) = upper name)
+    (hparms : dateParmsOk (l1 ++ (lit "TZID=" ++ upper name) :: l2) = .ok ())
+    (k : StrPy.TzidsKind) (lk : StrPy.Lookup) (hk : lookupOf k = some lk) :
+    ∃ vf, Gen.rrsDateParms (l1 ++ (lit "TZID=" ++ upper name) :: l2) (tzidTable s0 (o.unfold || o.compatible)) k =
+      .ok (some (.looked lk name), vf) := by
+  have h := tzid_found s0 pre kw name post d o htxt hkw hne hname hd hpre hlater l1 l2 h1 h2 hafter
+  unfold tzidOf at h
+  rw [RRuleStr.gen_dateParms_eq_model _ _ k lk hk, hparms, h]
+  exact ⟨_, rfl⟩
+
+-- non-vacuity: lower-case `tzid=`, mixed-case name, TZID after VALUE, folded inside `TZID=` and inside the name
+example : tzidOf (lit "dtstart;value=date-time;tz\n id=America/New\r\n _York:19970902T090000\nrrule:freq=daily") { unfold := true }
+    [lit "VALUE=DATE-TIME", lit "TZID=AMERICA/NEW_YORK"] = some (lit "America/New_York") :=
+  tzid_found _ (lit "dtstart;value=date-time;") (lit "tzid=") (lit "America/New_York") (lit "19970902T090000\nrrule:freq=daily") ':'
+    _ (by decide) (by decide) (by decide) (by decide) (Or.inl rfl) (by decide) (by decide) [lit "VALUE=DATE-TIME"] []
+    (by decide) (by decide) (by decide)
+
+/-- **the zone of a date value** (the statement translated into `Gen.rrsAttach`, for DTSTART and EXDATE alike):
+    * a `TZID` zone and a date text WITHOUT a zone of its own (the naive compact form): the date gets the looked-up zone —
+      for `DTSTART;TZID=name:…` that is `tzids(name)`, the zone `rrule(dtstart=datetime(…, tzinfo=tzids(name)))` has;
+    * no `TZID`: the zone is whatever `parser.parse` gave the text — none for the naive form (the keyword construction with a
+      naive start), the text's own zone for `…Z` (UTC; what `ignoretz` / `tzinfos` do inside `parser.parse` is C02/C15);
+    * a `TZID` zone AND a zone in the text: ValueError ("DTSTART/EXDATE specifies multiple timezone"). -/
+theorem date_zone (z z' : StrPy.Zone) (dz : Option StrPy.Zone) :
+    Gen.rrsAttach (some z) none = .ok (some z) ∧
+    Gen.rrsAttach none dz = .ok dz ∧
+    Gen.rrsAttach (some z) (some z') = .error .ValueError := ⟨rfl, by cases dz <;> rfl, rfl⟩
+
+/-- `DTSTART;TZID=name:<naive>` end to end on the source translation: the parameter loop hands `name` as written to the lookup
+    and the attach statement puts that zone on the naive date -/
+theorem dtstart_tzid_zone (parms : List (List Char)) (t : StrPy.Dict) (k : StrPy.TzidsKind) (lk : StrPy.Lookup) (name : List Char)
+    (vf : Bool) (h : Gen.rrsDateParms parms t k = .ok (some (.looked lk name), vf)) :
+    (Gen.rrsDateParms parms t k >>= fun r => Gen.rrsAttach r.1 none) = .ok (some (.looked lk name)) := by
+  rw [h]; rfl
+
+example : Gen.rrsAttach none (some .fromText) = .ok (some .fromText) := (date_zone .fromText .fromText _).2.1
 
 end C13
